@@ -209,6 +209,8 @@ class TermBuilder:
             for l, ds in defs.items():
                 if l in origin:
                     continue
+                # stores through the pointer do not redefine the pointer itself
+                ds = [d for d in ds if not (d[2] == 'partial' and d[3]['place']['p'] and d[3]['place']['p'][0] == 'deref')]
                 if len(ds) != 1:
                     continue
                 bi, si, kind, payload = ds[0]
@@ -259,6 +261,15 @@ class TermBuilder:
                         l = a['place']['l']
                         if l in origin and body.local_ty(l).lstrip().startswith('&') and 'mut ' in body.local_ty(l)[:12]:
                             add(origin[l], (bi, len(bl['stmts']), 'mutcall', (t, ai)))
+        # stores through a `&mut` reference whose origin is a local:  (*r) = v   /  (*r).f = v
+        for bi, bl in enumerate(body.blocks):
+            if bl['cleanup']:
+                continue
+            for si, st in enumerate(bl['stmts']):
+                if st['k'] == 'assign' and st['place']['p'] and st['place']['p'][0] == 'deref':
+                    base = st['place']['l']
+                    if base in origin and body.local_ty(base).lstrip().startswith('&'):
+                        add(origin[base], (bi, si, 'storethrough', st))
         for l in defs:
             defs[l].sort(key=lambda d: (d[0], d[1]))
 
@@ -373,6 +384,11 @@ class TermBuilder:
                 else:
                     args.append(self.operand_term(a, bi, si))
             return ('mut', key, ai, tuple(args), (self.body.path, bi))
+        if kind == 'storethrough':
+            st = payload
+            old = self.local_term(l, bi, si)
+            how = self.local_term(st['place']['l'], bi, si)
+            return ('mut', '*store', 0, (old, self.rvalue_term(st['rv'], bi, si), how), (self.body.path, bi))
         if kind == 'partial':
             st = payload
             old = self.local_term(l, bi, si)
